@@ -24,6 +24,9 @@ systematically (quick tier, first), the random stream mixes them. The driver is 
 HKLF carry (`Line.frag np`, `Line.hklf np`: theorems `truthiness_needed_frag/_hklf`).
 Configurations: the file is read by a quiet (default), verbose or debug `Shelxfile` (`case['cfg']`); what the library
 prints is not looked at.
+Atoms need not be pairwise distinct: names are unique only within a residue / PART. `twin_cases` (systematic) and
+`rand_twins` (random stream) repeat a molecule in further residues / PARTs with the same names, the same names and
+positions, or the very same lines (theorems one_entry_per_atom_line, eq_guard_fails_on).
 """
 import contextlib
 import io
@@ -451,6 +454,17 @@ def features(case):
         f.add('style:' + '+'.join(k for k, v in sorted(case['style'].items()) if v))
     if case.get('cfg'):
         f.add('cfg:' + case['cfg'])
+    texts, names_ = set(), set()
+    for it in ex:
+        if it[0] == 'atom':
+            t = ' '.join(atom_text(it)).split()
+            t = (t[0].upper(),) + tuple(float(v) for v in t[1:] if v != '=')
+            if t in texts:
+                f.add('same-text-atoms')
+            elif it[1].upper() in names_:
+                f.add('same-name-atoms')
+            texts.add(t)
+            names_.add(it[1].upper())
     opened = dict(part=False, afix=False, resi=False)
     seen_barrier = False
     for it in ex:
@@ -515,6 +529,17 @@ def compare_atoms(case, info, impl_atoms, ref, el_key):
     return diffs
 
 
+def first_by_name(names):
+    """`atoms_in_class` lists NAMES, each once. The driver works on tags (one per atom line, standing for name and
+    coordinates) and keeps the first occurrence of each tag; where several atom lines carry the same name (the same
+    molecule in several residues) the step from tags to names is made here."""
+    out = []
+    for n in names:
+        if n not in out:
+            out.append(n)
+    return out
+
+
 def view_expect(case, info, ref):
     """the derived views as filters of the atom list `ref`"""
     nm = lambda o: info[o['tag']]['name']
@@ -546,7 +571,7 @@ def history_text(case):
 def signature(case, attr, pos):
     feats = sorted(features(case))
     rel = [f for f in feats if (attr in ('part', 'sof') and f.startswith('part-open')) or (attr == 'afix' and f.startswith('afix-open'))
-           or (attr in ('rnum', 'rcls') and f.startswith('resi-open')) or (attr == 'atomlist' and f in ('frag', 'include'))
+           or (attr in ('rnum', 'rcls') and f.startswith('resi-open')) or (attr == 'atomlist' and f in ('frag', 'include', 'same-text-atoms', 'same-name-atoms'))
            or (attr == 'q' and f.endswith('open-at-hklf')) or (attr == 'el' and f.startswith('sfac-'))
            or (attr == 'atomlist' and f.startswith('frag-params=')) or (attr == 'q' and f.startswith('hklf-params='))
            or f.startswith('cfg:')]
@@ -591,11 +616,20 @@ def py_valid(case):
     return True
 
 
+def names_ok(case):
+    """structure atoms are told apart by (name, residue number, PART): the minimised file must stay a valid one"""
+    _, info = abstract(case)
+    keys = [(info[o['tag']]['name'].upper(), o['rnum'], o['part']) for o in expected(case) if not o['q']]
+    return len(keys) == len(set(keys))
+
+
 def shrink(case, attr, pos, budget=120):
     """greedy one-item removal while a failure of the same attribute remains"""
+    ok0 = names_ok(case)
+
     def fails(c):
         try:
-            return py_valid(c) and any(d[0] == attr for d in check_impl(c))
+            return py_valid(c) and (names_ok(c) or not ok0) and any(d[0] == attr for d in check_impl(c))
         except Exception:
             return False
     cur = case
@@ -721,7 +755,7 @@ def evaluate(ctx, cases, stream=None):
         nm = lambda t: info[t]['name']
         def named(v):
             return dict(hydrogens=[nm(t) for t in v['hydrogens']], qpeaks=[nm(t) for t in v['qpeaks']], riding=[nm(t) for t in v['riding']],
-                        residues=sorted(v['residues']), in_class=[[nm(t) for t in l] for l in v['in_class']])
+                        residues=sorted(v['residues']), in_class=[first_by_name([nm(t) for t in l]) for l in v['in_class']])
         model_views = dict(named(ans['model_views']), n_aniso=ans['model_views']['n_aniso'], n_iso=ans['model_views']['n_iso'])
         spec_views = dict(named(ans['spec_views']), n_aniso=ans['spec_views']['n_aniso_spec'], n_iso=ans['spec_views']['n_iso_spec'])
         if spec_views != want:
@@ -955,6 +989,8 @@ def make_file(rng, sfac=None, small=False):
         return items
 
     body += block(rng.randint(2, 5 if small else 12))
+    if rng.random() < 0.2:
+        body += rand_twins(rng, body)
     closing = rng.random()
     if closing < 0.5:      # close everything before HKLF, as SHELXL writes it
         body += [['afix', 0], ['part', 0, None], ['resi', '', 0, rng.choice(['n', 'n', 'bare']), 0, None]][:rng.randint(0, 3)]
@@ -1155,6 +1191,103 @@ def form_cases():
     return out
 
 
+# ------------------------------------------------------------------------------------------------
+# systematic: the same molecule several times. Atom names are unique only within a residue / PART: a valid file may
+# hold atom lines that agree in the name, in name and position, or in the whole text (a solvent molecule pasted twice
+# as start model) and are told apart only by the RESI number and / or the PART they stand in.
+
+TWIN_HOW = ['resi', 'resi-class', 'part', 'part-sof', 'part-sof-diff', 'resi+part']
+TWIN_SAME = ['text', 'coords', 'names']
+
+
+def twin_copy(mol, j, same):
+    """copy number j (1, 2, …) of the atom items `mol`: 'text' = the lines again, unchanged; 'coords' = same names and
+    positions, other occupation code / U; 'names' = same names at another position"""
+    out = []
+    for it in mol:
+        it = [it[0], it[1], it[2], list(it[3]), it[4], list(it[5]), it[6]]
+        if same == 'coords':
+            if it[4] is not None:
+                it[4] = [10.5, 20.5, 30.75, 10.25][j % 4] if it[4] == 11.0 or j > 1 else 11.0
+            it[5] = [v if v < 0 else round(v + 0.003 * j, 5) for v in it[5]]
+        elif same == 'names':
+            it[3] = [round((v + 0.137 * j) % 0.95 + 0.01, 6) for v in it[3]]
+        out.append(it)
+    return out
+
+
+def twin_open(how, j):
+    part = {'part': ['part', [1, 2, -1][(j - 1) % 3], None], 'part-sof': ['part', j, 21.0], 'part-sof-diff': ['part', j, [21.0, -21.0, 31.0][(j - 1) % 3]],
+            'resi+part': ['part', j, None]}.get(how)
+    resi = {'resi': ['resi', 'TOL', j, ['cn', 'nc'][j % 2], 0, None], 'resi-class': ['resi', CLASSES[j], j, 'cn', 0, None],
+            'resi+part': ['resi', 'Thf', 10 + j, 'nc', 0, None]}.get(how)
+    return ([resi] if resi else []) + ([part] if part else [])
+
+
+def twin_cases():
+    out = []
+
+    def add(body, **kw_):
+        i = len(out)
+        case = dict(sfac=['C', 'H', 'O', 'N'], body=body)
+        if CFGS[i % 3]:
+            case['cfg'] = CFGS[i % 3]
+        if (i // 3) % 2:
+            case['mode'] = 'file'
+        case.update(kw_)
+        out.append(case)
+
+    tail = [['hklf'], _peak(1), ['end'], _peak(2)]
+    for hi, how in enumerate(TWIN_HOW):
+        for si, same in enumerate(TWIN_SAME):
+            for copies in (2, 3):
+                for closed in (True, False):
+                    k = hi + si + copies + closed
+                    mol = [_at('O1', 3, 2, [11.0, 10.5][k % 2]), _at('C1', 1, 3, [11.0, 10.5][k % 2], ANISO, k % 3 == 0)]
+                    if k % 2:       # a riding hydrogen inside the molecule
+                        mol += [['afix', 137], _at('H1', 2, 4, [11.0, 10.5][k % 2], (-1.5,)), ['afix', 0]]
+                    if k % 4 == 0:
+                        mol += [_at('N2', 4, 5, None, ())]
+                    body = [_at('C1', 1, 1)]        # the name once more in residue 0 / PART 0
+                    for j in range(1, copies + 1):
+                        body += twin_open(how, j)
+                        body += [it if it[0] != 'atom' else twin_copy([it], j - 1, same)[0] for it in mol]
+                        if closed and 'part' in how:
+                            body.append(['part', 0, None])
+                    if closed and 'resi' in how:
+                        body.append(['resi', '', 0, ['n', 'bare'][k % 2], 0, None])
+                    body += ([_at('C9', 1, 9)] if closed else []) + tail
+                    add(body)
+    # the second copy comes from an include file
+    mol = [_at('O1', 3, 2, 10.5), _at('C1', 1, 3, 10.5, ANISO, True)]
+    for how in ('resi', 'part', 'resi+part'):
+        for same in TWIN_SAME:
+            add([_at('C1', 1, 1)] + twin_open(how, 1) + mol + twin_open(how, 2) + [['inc', 'mol.ins']] +
+                [['part', 0, None], ['resi', '', 0, 'n', 0, None], _at('C9', 1, 9)] + tail,
+                includes={'mol.ins': twin_copy(mol, 1 if same != 'text' else 0, same)})
+    return out
+
+
+def rand_twins(rng, body):
+    """one or two more copies of a run of atoms of `body`, each in a residue of its own (numbers 41, 42: not used by
+    Builder.context) and optionally a PART"""
+    atoms = [it for it in body if it[0] == 'atom']
+    if not atoms:
+        return []
+    k = rng.randint(1, min(3, len(atoms)))
+    i = rng.randrange(len(atoms) - k + 1)
+    same = rng.choice(['text', 'text', 'coords', 'names'])
+    out = []
+    for j in range(1, rng.choice([1, 1, 2]) + 1):
+        out.append(['resi', rng.choice(CLASSES), 40 + j, rng.choice(['cn', 'nc', 'n']), 5, None])
+        if rng.random() < 0.5:
+            out.append(['part', rng.choice([1, 2, -1]), rng.choice([None, None, 21.0, 10.5])])
+        out += twin_copy(atoms[i:i + k], j if same != 'text' else 0, same)
+        if rng.random() < 0.5:
+            out.append(['part', 0, None])
+    return out
+
+
 def resi_cases(rng, n):
     out = []
     words = ['TOL', 'Thf', '4BZ', 'C6', 'x']
@@ -1297,13 +1430,13 @@ def run(ctx):
     ctx.rule = ('generated files: SFAC table of 1..5 elements in any order and case, spelled with one or several SFAC instructions of both forms (element list / explicit coefficients, wrapped or not), optionally an element twice; keywords in upper/lower/title case, numbers as 5 decimals / shortest / exponent, trailing ! comments; every instruction the atom rules depend on in every prefix of its optional parameters '
                 '(FRAG with 0..7 parameters, ten HKLF forms from the bare HKLF to all 13 parameters, AFIX mn [d [sof [U]]], PART n [sof], RESI in seven token orders and bare, atom lines with 5 / 6 / 7 / 12 columns): first a systematic enumeration (form_cases: each form under no / open / closed PART+AFIX+RESI context), then random files of 2..12 body items drawn from atoms (iso / aniso wrapped or not / '
                 'riding hydrogens, own occupation code or 11 or none), context instructions, FRAG..FEND blocks (plain or as DSR writes them: Cartesian coordinates, lines with sof and U, remark and blank line inside; followed by structure atoms that carry the names of the FRAG lines), '
-                '+include files (nested up to 2, on disk), other instructions; contexts closed or left open at HKLF; peaks between HKLF and END '
+                '+include files (nested up to 2, on disk), other instructions; a fifth of the files repeats a run of its atoms in one or two further residues (optionally in a PART) with the same names / names and positions / whole lines, after a systematic enumeration of such twins (twin_cases: told apart by RESI number, RESI class, PART, PART with occupation code, RESI+PART; 2 or 3 copies; closed or open; from an include file); contexts closed or left open at HKLF; peaks between HKLF and END '
                 'and after END (+WGHT); a quarter of the files is the LAST of a read history (1-2 earlier files with the same elements in another SFAC order or an unrelated file, read by the same object or another one, every observable queried in between; last read by read_string / read_file / reload() after the file changed on disk); a quarter of the files is read by a verbose or debug Shelxfile (printed text ignored); distinct by (SFAC, items); non-trivial = at least one atom and at least one of: context left open at HKLF, '
                 'FRAG block, include, peaks, anisotropic atom. Thorough: every sequence of <= 4 context instructions from a 7-letter alphabet '
                 '(PART 2 31 / PART 0 / AFIX 43 / AFIX 0 / RESI TOL 3 / RESI 0 / HKLF) with 3 atoms in every gap placement, and every sequence of 5 and 6 '
                 'with the atoms spread.')
     ctx.assumptions = ['valid(file): an atom line between HKLF and END is peak shaped, <= 6 displacement values, FEND closes a FRAG (hypothesis of atoms_match_spec)',
-                       'atom names unique per file; scattering-factor numbers within the SFAC table',
+                       'atom names unique within a residue and PART (the same name, position or whole line may recur in another residue / PART); scattering-factor numbers within the SFAC table',
                        '`PART n 11` is the same as `PART n` (11 is the documented default of the sof parameter)',
                        'include files contain no END line and are not included twice',
                        'PART and AFIX carry their first parameter (n, mn have no documented default; the bare words are not generated)',
@@ -1314,6 +1447,12 @@ def run(ctx):
         fc = [dict({k: v for k, v in c.items() if k not in ('cfg', 'mode')}, **dict([('cfg', cfg)] if cfg else []), **dict([('mode', mode)] if mode else []))
               for c in fc for cfg in CFGS for mode in (None, 'file')]
     evaluate(ctx, fc)       # in this process: the first failing form is reported before anything else runs
+    tw = twin_cases()
+    if ctx.tier == 'thorough' or ctx.escalated:
+        tw = [dict({k: v for k, v in c.items() if k not in ('cfg', 'mode')}, **dict([('cfg', cfg)] if cfg else []), **dict([('mode', mode)] if mode else []))
+              for c in tw for cfg in CFGS for mode in ((None, 'file') if not c.get('includes') else (None,))]
+    evaluate(ctx, tw)
+    ctx.extra['twins'] = f'{len(tw)} files: a molecule of 2..4 atoms 2 or 3 times, the copies equal in name / name and position / the whole line, told apart by RESI number, RESI class, PART, PART with occupation code, or both; contexts closed or left open; second copy in an include file'
     ctx.extra['forms'] = f'{len(fc)} files: FRAG with 0..7 parameters, {len(HKLF_FORMS)} HKLF forms, AFIX with 1..4, RESI in 8 forms, atom lines with 5/6/7/12 columns, each under open / closed / no context, quiet / verbose / debug'
     n = ctx.budget(1500, 30000)
     cases = [make_case(ctx.rng) for _ in range(n)]
